@@ -77,15 +77,6 @@ impl Op {
     }
 }
 
-/// message number 1..=3 -> (direction is a->b?, frame index in that direction)
-fn locate(msg: usize) -> (bool, usize) {
-    match msg {
-        1 => (true, 0),
-        2 => (false, 0),
-        _ => (true, 1),
-    }
-}
-
 type Log = Arc<Mutex<Vec<(usize, Vec<u8>)>>>;
 
 /// frame-level adversary on one direction
@@ -173,7 +164,11 @@ fn run_session(cfg_a: noise::Config, cfg_b: noise::Config, plan: &[(usize, Op)],
     install(&b2a, false, plan.to_vec(), a2b.clone(), log.clone());
     let fa: LocalFut<'static, HsResult> = Box::pin(cfg_a.upgrade_outbound(a, "/noise"));
     let fb: LocalFut<'static, HsResult> = Box::pin(cfg_b.upgrade_inbound(b, "/noise"));
-    let (ra, rb, _over) = catch(|| drive2(fa, fb, 200_000))?;
+    let driven = catch(|| drive2(fa, fb, 200_000));
+    // the two adversary closures hold each other's direction handle: break the cycle (memcheck: no leaks)
+    a2b.set_tamper(None);
+    b2a.set_tamper(None);
+    let (ra, rb, _over) = driven?;
     let log = log.lock().unwrap().clone();
     Ok(Outcome { a: ra, b: rb, log })
 }
